@@ -157,28 +157,29 @@ macro_rules! const_cmp_for {
     ) => {
         match ($left_slice, $right_slice) {(mut left_slice, mut right_slice) => {
             use $crate::__::Ordering as CmpOrdering;
-            if left_slice.len() == right_slice.len() {
-                loop{
-                    if let ([l, l_rem@..], [r, r_rem@..]) = (left_slice, right_slice) {
-                        left_slice = l_rem;
-                        right_slice = r_rem;
+            // lexicographic, like `<[T] as Ord>::cmp`:
+            // the first unequal pair of elements decides,
+            // the lengths are only compared once either slice runs out.
+            loop{
+                if let ([l, l_rem@..], [r, r_rem@..]) = (left_slice, right_slice) {
+                    left_slice = l_rem;
+                    right_slice = r_rem;
 
-                        let ord = $crate::__priv_const_cmp_for!{
-                            *l,
-                            *r,
-                            $($($comparison)*)?
-                        };
-                        if !$crate::__::matches!(ord, $crate::__::Ordering::Equal) {
-                            break ord;
-                        }
-                    } else {
-                        break $crate::__::Ordering::Equal
+                    let ord = $crate::__priv_const_cmp_for!{
+                        *l,
+                        *r,
+                        $($($comparison)*)?
+                    };
+                    if !$crate::__::matches!(ord, $crate::__::Ordering::Equal) {
+                        break ord;
                     }
+                } else if left_slice.len() == right_slice.len() {
+                    break CmpOrdering::Equal
+                } else if left_slice.len() < right_slice.len() {
+                    break CmpOrdering::Less
+                } else {
+                    break CmpOrdering::Greater
                 }
-            } else if left_slice.len() < right_slice.len() {
-                CmpOrdering::Less
-            } else {
-                CmpOrdering::Greater
             }
         }}
     };
